@@ -47,7 +47,8 @@ def lean_line(it):
 def judge(R, it, res, ans):
     P, speeds = it["P"], it["speeds"]
     n = len(P)
-    inp = {"P": P, "speeds": speeds, "probabilistic_serial": bool(it.get("ps")), "pre_speeds": it.get("pre_speeds"), "speed_dtype": it.get("speed_dtype")}
+    inp = {"P": P, "speeds": speeds, "probabilistic_serial": bool(it.get("ps")), "pre_speeds": it.get("pre_speeds"), "speed_dtype": it.get("speed_dtype"),
+           "zero_indexed": bool(it.get("zero"))}
     if "exc" in res or "hang" in res:
         R.violation("property_violation", "terminates without raising", ENTRY, inp, impl_output=res, oracle="raised/hang")
         return
@@ -122,7 +123,7 @@ def run(R):
         mode = R.rng.randrange(4)
         if mode == 0:
             speeds = ["1"] * n
-            items.append({"P": P, "speeds": speeds, "ps": True})
+            items.append({"P": P, "speeds": speeds, "ps": True, "zero": R.rng.random() < 0.4})
             continue
         if mode == 1:
             s = R.rng.choice(SPEEDS)
@@ -137,7 +138,8 @@ def run(R):
             speeds = [R.rng.choice(["1", "99999/100000", "100001/100000", "999999/1000000", "9999999/10000000"]) for _ in range(n)]
             mode = 4
             R.count("nearly_equal_speeds")
-        it = {"P": P, "speeds": speeds}
+        # zero_indexed only changes how scf numbers its output; the bistochastic outcome must not depend on it
+        it = {"P": P, "speeds": speeds, "zero": R.rng.random() < 0.4}
         if mode == 2 and R.rng.random() < 0.6:
             it["speed_dtype"] = R.rng.choice(["int8", "int16", "int32", "int64"])
             R.count("integer_speed_array:" + it["speed_dtype"])
@@ -159,4 +161,4 @@ def run(R):
 def replay(R, rep):
     inp = rep["input"]
     run_items(R, [{"P": inp["P"], "speeds": inp["speeds"], "ps": inp.get("probabilistic_serial", False), "pre_speeds": inp.get("pre_speeds"),
-                   "speed_dtype": inp.get("speed_dtype")}])
+                   "speed_dtype": inp.get("speed_dtype"), "zero": inp.get("zero_indexed", False)}])
